@@ -59,3 +59,70 @@ Theorem C14_worklist_returns_fixpoint :
   st c = fold_left Nat.min (map (val nat unit (make_size M) st) rest) (val nat unit (make_size M) st x).
 Proof. exact minsize_run_fixpoint. Qed.
 Print Assumptions C14_worklist_returns_fixpoint.
+
+(* third session (EGraph/AnalysisModel*.v, ten files): the CONCRETE analysis model EGraph/ModelA.v.
+   (i) static: in a state of ModelA that is well formed, stable (make of every stored node is below its class's
+   datum - what `pending = []` gives, AnalysisModelBase.stab_pending_nil) and `upper` (every datum is below a join of makes
+   of nodes stored in the class - the history-free form of `justified`), the datum of every live class IS the fold of
+   merge over make of its stored e-nodes - for every semilattice analysis whose make is a monotone function of the label
+   and the children's data.
+   (ii) dynamic: the two steps that WRITE analysis data re-establish stability: update_analysis (the first thing
+   handle_pending does) and the whole of move_to (merge of the two data, link, node moving, both touched_class calls) -
+   stated here for the min-size instance the harness runs; the generic forms are AnalysisModelStab.update_analysis_stab and
+   AnalysisModelFacts.move_to_stab, and they need the analysis hypothesis `make_below_kids` (a node never raises the datum
+   of a child's class), which min-size and depth satisfy.
+   (iii) the probe analysis behind the two KNOWN FINDINGS (cap-depth, merge = max) is a monotone semilattice analysis that
+   violates exactly `make_below_kids`; AnalysisModelEval.eval_cap8_stab_fails / eval_cap3_pstored_fails exhibit the
+   model runs (stability fails at a loop head; a pending entry is not stored) matching the two listed findings.
+   NOT PROVED: composition of (ii) through handle_pending on Full entries, union_internal and alloc_eclass, and
+   preservation of `upper`; AnalysisModelFacts.modelA_data_is_fixpoint states the reachable-state theorem conditionally on
+   an invariant J with those closure properties.  Per run the conclusion itself (datum = recomputed join) is evaluated on the
+   implementation after every operation. *)
+From Coq Require Import NArith.
+From SE Require Import EGraph.ModelA EGraph.ModelAMachine EGraph.AnalysisModelBase EGraph.AnalysisModelStab EGraph.AnalysisModelAbs
+  EGraph.AnalysisModelFrames EGraph.AnalysisModelInst EGraph.AnalysisModelFacts.
+
+Theorem C14_model_stable_upper_is_fixpoint :
+  forall (Data : Type) (make : (N -> res Data) -> node -> res Data) (merge : Data -> Data -> Data),
+  (forall x y z, merge x (merge y z) = merge (merge x y) z) ->
+  (forall x y, merge x y = merge y x) ->
+  (forall x, merge x x = x) ->
+  forall (L : Type) (lab : node -> L) (mk : L -> list Data -> Data),
+  (forall get n, make get n = do ds <- mapr get (node_ids n); Ok (mk (lab n) ds)) ->
+  (forall l xs ys, Forall2 (AnalysisFix.le Data merge) xs ys -> AnalysisFix.le Data merge (mk l xs) (mk l ys)) ->
+  forall s : egraph Data,
+  WF Data s -> hc_nodup Data s -> stable_all Data make merge s -> upper Data make merge s ->
+  forall c d, In c (ids Data s) -> analysis_data Data s c = Ok d ->
+  forall sh0 rest, map fst (filter (fun e => N.eqb (snd e) c) (hashcons Data s)) = sh0 :: rest ->
+  exists v0 vs, make_in Data make s sh0 = Ok v0 /\ mapr (make_in Data make s) rest = Ok vs /\ d = fold_left merge vs v0.
+Proof. exact modelA_fixpoint_concrete. Qed.
+Print Assumptions C14_model_stable_upper_is_fixpoint.
+
+Theorem C14_empty_worklist_means_stable : forall Data make merge (s : egraph Data),
+  stab Data make merge s -> pending Data s = [] -> stable_all Data make merge s.
+Proof. exact stab_pending_nil. Qed.
+Print Assumptions C14_empty_worklist_means_stable.
+
+Theorem C14_update_analysis_reestablishes_stability : forall (sh : node) (i : N) (s s' : egraph N),
+  stabx N make_minsize N.min (eq sh) s -> dok N (fun d : N => (d <= u64_max)%N) s ->
+  stored N s sh i -> find_id N s i = Ok i -> ucov_at N (eq sh) s i ->
+  update_analysis N N.eqb make_minsize N.min sh i s = Ok (tt, s') ->
+  stab N make_minsize N.min s' /\ dok N (fun d : N => (d <= u64_max)%N) s' /\
+  unionfind N s' = unionfind N s /\ hashcons N s' = hashcons N s /\ (forall x : node, npend N s' x -> npend N s x).
+Proof. exact minsize_update_analysis_stab. Qed.
+Print Assumptions C14_update_analysis_reestablishes_stability.
+
+Theorem C14_move_to_keeps_stability : forall (from to : appid) (s s' : egraph N),
+  stab N make_minsize N.min s -> dok N (fun d : N => (d <= u64_max)%N) s -> na_nodup (hashcons N s) ->
+  find_id N s (aid from) = Ok (aid from) -> find_id N s (aid to) = Ok (aid to) -> aid from <> aid to ->
+  ucov_at N (fun _ : node => False) s (aid to) -> ucov_at N (fun _ : node => False) s (aid from) ->
+  move_to N N.eqb N.min from to s = Ok (tt, s') ->
+  stab N make_minsize N.min s' /\ dok N (fun d : N => (d <= u64_max)%N) s' /\ na_nodup (hashcons N s').
+Proof. exact minsize_move_to_stab. Qed.
+Print Assumptions C14_move_to_keeps_stability.
+
+Theorem C14_cap_depth_is_monotone_but_raises_its_children : forall cap, (1 < cap)%N ->
+  (forall (l : unit) xs ys, Forall2 (fun x y : N => N.max x y = y) xs ys -> N.max (mk_cap cap l xs) (mk_cap cap l ys) = mk_cap cap l ys) /\
+  exists ds d, In d ds /\ N.max d (mk_cap cap tt ds) <> d.
+Proof. intros cap H. split. exact (capdepth_mono cap). exact (capdepth_not_below_kids cap H). Qed.
+Print Assumptions C14_cap_depth_is_monotone_but_raises_its_children.
